@@ -148,7 +148,7 @@ func evalTree(rp *reporter, n *node, viaOption bool, levels []int8, st *treeStat
 		// calls need a tree whose lazy nodes are still untouched.
 		for pass := 0; pass < 2; pass++ {
 			for _, l := range levels {
-				disabled := !accept(t.model, l, t.cur)
+				disabled := !accept(t.model, l, t.cur) // the level pre-check fails
 				for fi := range frontEnds {
 					fe := &frontEnds[fi]
 					isCore := fe.family == "core"
@@ -298,6 +298,8 @@ func main() {
 	}
 	ts := partTrees(rp, maxN, fullUpTo)
 	phase("core trees")
+	os1 := partOnce(rp)
+	phase("first-only sampler")
 	hs := partHistories(rp, run.Thorough())
 	phase("AtomicLevel histories")
 
@@ -319,22 +321,23 @@ func main() {
 	run.Assume = []string{
 		fmt.Sprintf("levels: all 256 int8 values for trees of <= %d nodes, the 12 boundary levels {-128,-2,debug..fatal,invalid,invalid+1,127} for larger trees; Enabled(l) is compared at all 256 values for every tree", fullUpTo),
 		"the shared AtomicLevel only takes the seven named levels and InvalidLevel (zap documents nothing for an AtomicLevel set to another out-of-range value)",
-		"the sampler's budget (first = MaxInt32 per tick of 1h) is never exhausted, so it must be transparent; sampling decisions are property C11",
+		"samplers: one whose budget (first = MaxInt32 per tick of 1h) is never exhausted and must be transparent, one that drops every named-level entry (first=0, thereafter=0), and a first-only one (first=1, thereafter=0) driven twice within one tick; which entries a sampler keeps in general is property C11",
+		"Enabled/LevelOf/Level/V above a dropping sampler are only required to report the wrapped core's levels (Enabled is a level pre-check and cannot know sampling decisions); NewIncreaseLevelCore's validation is judged against that pre-check too",
 		"Panic/Fatal terminal actions are replaced through WithPanicHook/WithFatalHook by a counting no-op so the enumeration survives them; termination is property C06",
 		"lazy With fields: only 'a disabled call below DPanic whose core reports Enabled=false evaluates nothing' is demanded (Logger.check documents that the pre-check is skipped from DPanic upwards); eager With fields are marshaled at construction and are not counted against an entry",
 		"message formatting cost of SugaredLogger on disabled calls is not observed (not part of the statement)",
 		"loggers are non-development, without caller annotation, and with stack traces switched off (AddStacktrace(never)): by default zap captures a stack for every level above Fatal, which is irrelevant here and slow",
 		"other front ends that end in Logger.Check (zapio.Writer, the std-log bridge, zapslog, zaptest) are covered by their own properties (C17, C13, C18)",
 	}
-	samples := append(append([]any{}, ts.samples...), hs.samples...)
+	samples := append(append(append([]any{}, ts.samples...), os1.sample), hs.samples...)
 	run.Finish(map[string]any{
 		"states":                        hs.states,
 		"transitions":                   hs.steps,
 		"traces_validated_against_impl": hs.sequences,
-		"evaluations":                   ts.calls + ts.levelChecks + hs.steps + hs.levelChecks,
+		"evaluations":                   ts.calls + ts.levelChecks + os1.calls + hs.steps + hs.levelChecks,
 		"distinct_nontrivial":           ts.nontrivial,
-		"rule": fmt.Sprintf("(a) every core tree with <= %d nodes over leaves {observer, JSON IO core over a counting sink} x 9 enablers and wrappers Tee(2-3 ordered children), NewIncreaseLevelCore x 9 enablers, RegisterHooks, NewSampler, NewLazyWith, With; trees whose IncreaseLevel must be refused are checked for the error (and, at the root, for the no-effect behaviour of the zap.IncreaseLevel option) and not evaluated further; each accepted tree (x 4 values of the shared AtomicLevel when it uses it) is driven at all 256 levels (<= %d nodes) or 12 boundary levels through %d front ends (raw Core.Check+Write, Logger.Log/Check+Write/named methods, SugaredLogger Log/Logf/Logw/Logln and named methods in four styles, zapgrpc Info/Warning/Error/Fatal/Print families) and Enabled at all 256 levels, LevelOf, Logger.Level, V(0..3); non-trivial = the reference delivers the entry to some leaf at some evaluated level and withholds it from some leaf at some level; all enumerated trees are structurally distinct, distinct_behaviours counts distinct reference delivery tables. (b) %s",
-			maxN, fullUpTo, len(frontEnds), hs.rule),
+		"rule": fmt.Sprintf("(a) every core tree with <= %d nodes over leaves {observer, JSON IO core over a counting sink} x 9 enablers and wrappers Tee(2-3 ordered children), NewIncreaseLevelCore x 9 enablers, RegisterHooks, NewSampler (budget never exhausted), a dropping sampler (first=0, thereafter=0: declines every named-level entry in Check), NewLazyWith, With; trees whose IncreaseLevel must be refused are checked for the error (and, at the root, for the no-effect behaviour of the zap.IncreaseLevel option) and not evaluated further; each accepted tree (x 4 values of the shared AtomicLevel when it uses it) is driven at all 256 levels (<= %d nodes) or 12 boundary levels through %d front ends (raw Core.Check+Write, Logger.Log/Check+Write/named methods, SugaredLogger Log/Logf/Logw/Logln and named methods in four styles, zapgrpc Info/Warning/Error/Fatal/Print families) and Enabled at all 256 levels, LevelOf, Logger.Level, V(0..3); non-trivial = the reference delivers the entry to some leaf at some evaluated level and withholds it from some leaf at some level; all enumerated trees are structurally distinct, distinct_behaviours counts distinct reference delivery tables. (a') %d shapes around a first-only sampler (first=1, thereafter=0), each driven twice with the same level and message on a fresh tree per level x 3 front ends: the second call must reach nothing below the sampler. (b) %s",
+			maxN, fullUpTo, len(frontEnds), os1.shapes, hs.rule),
 		"samples":                    samples,
 		"exhaustive":                 true,
 		"trees_enumerated":           ts.trees,
@@ -344,6 +347,8 @@ func main() {
 		"log_calls_on_trees":         ts.calls,
 		"level_queries_on_trees":     ts.levelChecks,
 		"distinct_behaviours":        len(ts.behaviours),
+		"once_shapes_evaluated":      os1.evaluated,
+		"once_log_calls":             os1.calls,
 		"history_sequences":          hs.sequences,
 		"history_level_queries":      hs.levelChecks,
 		"max_nodes":                  maxN,
@@ -377,6 +382,8 @@ func replay(run *ev.Run, rp *reporter, file string) {
 	}
 	fmt.Printf("replaying key %s on %s\n", doc.Key, n)
 	switch doc.Case.Part {
+	case "once":
+		evalOnce(rp, n)
 	case "histories":
 		st := &histStats{}
 		runSeq(rp, n, doc.Case.Start, doc.Case.Steps, st, map[hstate]struct{}{}, true)
